@@ -92,6 +92,17 @@ def run(env):
                     if ln == n or ln < 0: continue
                     m = copy.deepcopy(pf); m[k] = (m[k] + [m[k][-1]] * 2)[:ln]
                     add(sp, "lengths", True, proof=wire.hx(wire.proof_bytes(fl, m)))
+        # statement and proof resized CONSISTENTLY to k != n items (k = 0: empty lists, one generator, a proof whose
+        # five vectors are all empty — only hand-made bytes can be that): every length test passes, so anything
+        # that indexes "the last element" or skips an N = 0 test shows here
+        for k in range(0, n + 2):
+            if k == n:
+                continue
+            m = copy.deepcopy(pf)
+            for kk in ("t_hats", "s_hats", "s_primes", "cs", "c_hats"):
+                m[kk] = (m[kk] + [m[kk][-1]] * 2)[:k]
+            add(sp, "N=0" if k == 0 else "resized-consistently", True, proof=wire.hx(wire.proof_bytes(fl, m)),
+                es=(sp["_es"] + sp["_es"])[:k], out=(sp["_out"] + sp["_out"])[:k], gens=(sp["_gens"] + sp["_gens"][1:])[:k + 1])
         # mismatched list lengths and N = 0
         add(sp, "short-outputs", True, out=sp["_out"][:-1])
         add(sp, "long-outputs", True, out=sp["_out"] + [sp["_out"][0]])
